@@ -671,7 +671,9 @@ REGISTRY = {
                       'candidates through the runtime (await '
                       'get_runtime().map / submit) inside loops, which the '
                       'pyvc subset does not cover, so this property is '
-                      'bounded only; LEAP / QSearch / PAS belong to C03; one '
+                      'bounded only; LEAP / QSearch belong to C03; '
+                      'PermutationAwareSynthesisPass is checked in its three '
+                      'modes against the mappings it reports; one '
                       'known finding (ExtractDiagonalPass merging across '
                       'locations)',
         'parts': [
